@@ -5,7 +5,7 @@
 From PDV Require Import lib.Skel gen.Gen_C14.
 From Coq Require Import ZArith.
 
-(* putStoreImpl is only the locking wrapper (fix fdb55d1); PutStore is its only caller besides tests *)
+(* putStoreImpl is only the locking wrapper (fix b1c60ab); PutStore is its only caller besides tests *)
 Lemma skel_putStoreImpl_ok : skel_putStoreImpl =
   [Lock "c"; DeferUnlock "c"; Call "putStoreImplLocked"; Ret].
 Proof. reflexivity. Qed.
@@ -21,7 +21,7 @@ Lemma skel_PutStore_ok : skel_PutStore =
 Proof. reflexivity. Qed.
 
 (* UpdateStoreLabels: the lookup of the served meta, the clone with the new labels and the put are ONE section under the
-   cluster lock (model: do_labels is one atomic command). Before fdb55d1 the lookup and clone preceded the lock, which the
+   cluster lock (model: do_labels is one atomic command). Before b1c60ab the lookup and clone preceded the lock, which the
    overlapping-operations class exposed (regression pairs 3 and 4 of the driver). *)
 Lemma skel_UpdateStoreLabels_ok : skel_UpdateStoreLabels =
   [Lock "c"; DeferUnlock "c"; Call "GetStore"; IfE "store == nil" [Ret] []; Call "Clone"; Assign "newStore.Labels" "= labels"; Call "putStoreImplLocked"; Ret].
@@ -165,7 +165,7 @@ Lemma skel_IsCompatible_ok : skel_IsCompatible =
   [Call "LessThan"; IfE "a.LessThan(b)" [Ret] []; Ret].
 Proof. reflexivity. Qed.
 
-(* buryStore has exactly one production caller, checkStores (its unlocked region-count read is only a shortcut since b5aa87e: buryStore re-checks under the lock) *)
+(* buryStore has exactly one production caller, checkStores (its unlocked region-count read is only a shortcut since 2f015b8: buryStore re-checks under the lock) *)
 Lemma bury_callers_ok : bury_callers =
   ["server/cluster/cluster.go:checkStores"].
 Proof. reflexivity. Qed.
